@@ -73,9 +73,10 @@ package codec
 //@ modifies nothing
 
 //@ func BorrowEmptyIndexBuf
-//@ property C10
-//@ ensures len(result) == 0
+//@ trusted
+//@ ensures len(result) == 0 && fresh(result)
 //@ modifies nothing
+//@ note trusted ownership: a buffer taken from bufferPool is referenced by nobody else (ReturnIndexBuf is called by the owner, who then drops it), so it is treated like a fresh allocation
 
 //@ func V2.RecoverIndex
 //@ property C10
@@ -84,7 +85,16 @@ package codec
 //@ requires 0 <= baseEntryOffset && baseEntryOffset < 4611686018427387904
 //@ loop 0 invariant startFileOffset <= newFileOffset && newFileOffset <= len(buf)
 //@ loop 0 invariant baseEntryOffset <= currentEntryOffset && len(index) == 4*(currentEntryOffset-baseEntryOffset)
+//@ loop 0 invariant forall j int :: 0 <= j && j < currentEntryOffset-baseEntryOffset ==> startFileOffset + 5*j <= be32(index, 4*j) && be32(index, 4*j) + 5*(currentEntryOffset-baseEntryOffset-j) <= newFileOffset
+//@ loop 0 invariant forall i int, j int :: 0 <= i && i < j && j < currentEntryOffset-baseEntryOffset ==> be32(index, 4*i) + 5*(j-i) <= be32(index, 4*j)
+//@ loop 0 invariant fresh(index)
+//@ loop 0 modifies fresh
 //@ loop 0 decreases len(buf) - newFileOffset
+//@ ensures err == nil ==> forall j int :: 0 <= j && j < len(index)/4 ==> startFileOffset + 5*j <= be32(index, 4*j) && be32(index, 4*j) + 5*(len(index)/4-j) <= newFileOffset
+//@ ensures err == nil ==> forall i int, j int :: 0 <= i && i < j && j < len(index)/4 ==> be32(index, 4*i) + 5*(j-i) <= be32(index, 4*j)
+//@ ensures err == nil ==> len(index) == 4*(lastEntryOffset - baseEntryOffset + 1)
+//@ ensures err == nil ==> fresh(index)
+//@ modifies nothing
 //@ ensures err == nil ==> lastEntryOffset == baseEntryOffset + len(index)/4 - 1 && startFileOffset <= newFileOffset && newFileOffset <= len(buf)
 //@ ensures err == nil ==> newFileOffset + 12 > len(buf) || be32(buf, newFileOffset) == 0 || (commitOffset != nil && lastEntryOffset + 1 > *commitOffset)
 
@@ -95,7 +105,16 @@ package codec
 //@ requires 0 <= baseEntryOffset && baseEntryOffset < 4611686018427387904
 //@ loop 0 invariant startFileOffset <= newFileOffset && newFileOffset <= len(buf)
 //@ loop 0 invariant baseEntryOffset <= currentEntryOffset && len(index) == 4*(currentEntryOffset-baseEntryOffset)
+//@ loop 0 invariant forall j int :: 0 <= j && j < currentEntryOffset-baseEntryOffset ==> startFileOffset + 5*j <= be32(index, 4*j) && be32(index, 4*j) + 5*(currentEntryOffset-baseEntryOffset-j) <= newFileOffset
+//@ loop 0 invariant forall i int, j int :: 0 <= i && i < j && j < currentEntryOffset-baseEntryOffset ==> be32(index, 4*i) + 5*(j-i) <= be32(index, 4*j)
+//@ loop 0 invariant fresh(index)
+//@ loop 0 modifies fresh
 //@ loop 0 decreases len(buf) - newFileOffset
+//@ ensures err == nil ==> forall j int :: 0 <= j && j < len(index)/4 ==> startFileOffset + 5*j <= be32(index, 4*j) && be32(index, 4*j) + 5*(len(index)/4-j) <= newFileOffset
+//@ ensures err == nil ==> forall i int, j int :: 0 <= i && i < j && j < len(index)/4 ==> be32(index, 4*i) + 5*(j-i) <= be32(index, 4*j)
+//@ ensures err == nil ==> len(index) == 4*(lastEntryOffset - baseEntryOffset + 1)
+//@ ensures err == nil ==> fresh(index)
+//@ modifies nothing
 //@ ensures err == nil ==> lastEntryOffset == baseEntryOffset + len(index)/4 - 1 && startFileOffset <= newFileOffset && newFileOffset <= len(buf)
 
 //@ func V2.WriteRecord
@@ -151,4 +170,36 @@ package codec
 //@ property C09 C10
 //@ requires len(buf) <= 4294967295 && startFileOffset <= len(buf)
 //@ requires 0 <= baseEntryOffset && baseEntryOffset < 4611686018427387904
+//@ ensures err == nil ==> forall j int :: 0 <= j && j < len(index)/4 ==> startFileOffset + 5*j <= be32(index, 4*j) && be32(index, 4*j) + 5*(len(index)/4-j) <= newFileOffset
+//@ ensures err == nil ==> forall i int, j int :: 0 <= i && i < j && j < len(index)/4 ==> be32(index, 4*i) + 5*(j-i) <= be32(index, 4*j)
+//@ ensures err == nil ==> len(index) == 4*(lastEntryOffset - baseEntryOffset + 1)
+//@ ensures err == nil ==> fresh(index)
+//@ modifies nothing
 //@ ensures err == nil ==> lastEntryOffset == baseEntryOffset + len(index)/4 - 1 && startFileOffset <= newFileOffset && newFileOffset <= len(buf)
+
+//@ func Codec.GetTxnExtension
+//@ trusted
+//@ pure
+
+//@ func Codec.GetIdxExtension
+//@ trusted
+//@ pure
+
+//@ func Codec.WriteIndex
+//@ trusted
+//@ pure
+//@ nondet
+
+//@ func Codec.ReadIndex
+//@ trusted
+//@ pure
+//@ nondet
+
+// GetOrCreate: a codec is returned whenever no error is.
+//
+//@ func GetOrCreate(basePath) (_codec, exist, err)
+//@ property C10
+//@ assume latestCodec != nil && len(SupportedCodecs) >= 1 && (forall k int :: 0 <= k && k < len(SupportedCodecs) ==> SupportedCodecs[k] != nil) because "latestCodec and SupportedCodecs are set once by the package initialiser to the non-nil v1/v2 singletons"
+//@ loop 0 invariant _codec != nil && len(candidateCodecs) <= len(SupportedCodecs) && (forall k int :: 0 <= k && k < len(candidateCodecs) ==> candidateCodecs[k] != nil)
+//@ ensures err == nil ==> _codec != nil
+//@ modifies nothing
